@@ -114,8 +114,9 @@ struct ParameterTraits<cntgs::AlignAs<T, Alignment>>
             size = alignment_offset - offset + VALUE_BYTES;
             new_offset = offset + size;
         }
-        const auto padding_offset = detail::align_if<(TRAILING_ALIGNMENT < NextAlignment), NextAlignment>(new_offset);
-        return {new_offset, size, padding_offset - new_offset, (std::max)(alignment, ALIGNMENT)};
+        const auto new_alignment = (std::max)(alignment, ALIGNMENT);
+        return {new_offset, size, detail::trailing_padding<TRAILING_ALIGNMENT, NextAlignment>(new_offset, new_alignment),
+                new_alignment};
     }
 
     static auto data_begin(ConstReferenceType reference) noexcept
@@ -411,8 +412,9 @@ struct ParameterTraits<cntgs::FixedSize<cntgs::AlignAs<T, Alignment>>> : BaseCon
             size = alignment_offset - offset + value_size;
             new_offset = offset + size;
         }
-        const auto padding_offset = detail::align_if<(TRAILING_ALIGNMENT < NextAlignment), NextAlignment>(new_offset);
-        return {new_offset, size, padding_offset - new_offset, (std::max)(alignment, ALIGNMENT)};
+        const auto new_alignment = (std::max)(alignment, ALIGNMENT);
+        return {new_offset, size, detail::trailing_padding<TRAILING_ALIGNMENT, NextAlignment>(new_offset, new_alignment),
+                new_alignment};
     }
 
     static void copy(const cntgs::Span<std::add_const_t<T>>& source,
